@@ -480,10 +480,21 @@ func init() {
 				continue
 			}
 			docs := [][]byte{b}
-			for _, m := range append(mutations(inst), renames(inst, goFieldNames(t, map[reflect.Type]bool{}))...) {
+			for _, m := range mutations(inst) {
 				mb, err := json.Marshal(m)
 				if err == nil {
 					docs = append(docs, mb)
+				}
+			}
+			// a rename moves a value under a field of another kind: keep only documents whose integers lie within int64, the range
+			// every 64-bit kind accepts on its own side (the property speaks of integers "within the range of the 64-bit types";
+			// an int64 field has no bound in the schema, so a uint64 maximum moved under it is outside that proviso)
+			if !hasIntOutsideInt64(inst) {
+				for _, m := range renames(inst, goFieldNames(t, map[reflect.Type]bool{})) {
+					mb, err := json.Marshal(m)
+					if err == nil {
+						docs = append(docs, mb)
+					}
 				}
 			}
 			for _, doc := range docs {
@@ -738,4 +749,31 @@ func renames(v any, names []string) []any {
 		out = out[:300]
 	}
 	return out
+}
+
+// hasIntOutsideInt64 reports whether the decoded document holds an integer-valued number outside [-2^63, 2^63-1].
+func hasIntOutsideInt64(v any) bool {
+	switch c := v.(type) {
+	case json.Number:
+		if _, err := c.Int64(); err != nil {
+			if f, ferr := c.Float64(); ferr == nil && (f >= 9.2e18 || f <= -9.2e18) {
+				return true
+			}
+		}
+	case float64:
+		return c >= 9.2e18 || c <= -9.2e18
+	case []any:
+		for _, x := range c {
+			if hasIntOutsideInt64(x) {
+				return true
+			}
+		}
+	case map[string]any:
+		for _, x := range c {
+			if hasIntOutsideInt64(x) {
+				return true
+			}
+		}
+	}
+	return false
 }
